@@ -311,7 +311,8 @@ def make_op(rng, name, n, scale, stamps):
         t = rand_pose(rng, scale)
         if name.endswith("_sim"):
             t[:3, :3] *= float(rng.choice([0.5, 2.0, 10.0]))
-        return {"op": "transform", "t": H(t), "right": "right" in name or "prop" in name, "propagate": "prop" in name}
+        return {"op": "transform", "t": H(t), "right": "right" in name or "prop" in name,
+                "propagate": "prop" in name or (name.endswith("right_sim") and bool(rng.random() < 0.5))}
     if name == "scale":
         return {"op": "scale", "s": hexf(float(rng.choice([0.5, 2.0, 1.0, 1e-2, 30.0])))}
     if name == "reduce":
@@ -335,7 +336,7 @@ def make_op(rng, name, n, scale, stamps):
 
 
 ALPHABET = ["rd_pos", "rd_quat", "rd_poses", "rd_derived", "copy", "transform_left", "transform_right", "transform_prop",
-            "transform_left_sim", "transform_right_sim", "scale", "reduce", "downsample", "motion_filter", "crop",
+            "transform_left_sim", "transform_right_sim", "transform_prop_sim", "scale", "reduce", "downsample", "motion_filter", "crop",
             "align", "align_scale", "align_only_scale", "align_origin", "project"]
 
 
@@ -379,7 +380,7 @@ def gen(ctx):
     cases = []
     depth = ctx.n(2, 3)
     core = ["rd_pos", "rd_quat", "rd_poses", "copy", "transform_left", "transform_right", "transform_prop",
-            "transform_left_sim", "scale", "reduce", "project", "align_scale", "align_origin", "downsample"]
+            "transform_left_sim", "transform_prop_sim", "scale", "reduce", "project", "align_scale", "align_origin", "downsample"]
     seqs = list(itertools.product(core, repeat=depth))
     rng.shuffle(seqs)
     for k, seq in enumerate(seqs[:ctx.n(200, 2800)]):
